@@ -83,6 +83,11 @@ func handCases(prop, tier string, seed uint64) []Case {
 			fl = os.O_RDWR
 			ops = []HOp{{K: "read", N: 33<<20 + 1}, {K: "write", N: 100, DSeed: 9}, {K: "seek", Off: 3, Wh: 0}, {K: "read", N: 39 << 20}, {K: "readat", N: 34 << 20, Off: 1 << 20}, {K: "seek", Off: 0, Wh: 2}, {K: "stat"}}
 		}
+		if i == 1 {
+			// one write of 70 MiB into a new file (memory write cache), the buffer reused afterwards
+			cfgH, sz, fl = plainM, -1, os.O_RDWR|os.O_CREATE
+			ops = []HOp{{K: "write", N: 70 << 20, DSeed: 3}, {K: "write", N: 100, DSeed: 4}, {K: "readat", N: 4096, Off: 0}, {K: "seek", Off: 1 << 20, Wh: 0}, {K: "read", N: 8192}, {K: "stat"}}
+		}
 		pb, _ := json.Marshal(handP{Cfg: cfgH, Init: sz, Flag: fl, Ops: ops})
 		cases = append(cases, Case{ID: fmt.Sprintf("c14-huge-%d", i), Seed: subSeed(seed, prop, "huge", fmt.Sprint(i)), Kind: "random", P: pb})
 	}
@@ -513,7 +518,12 @@ func handRun(prop, tier string, c Case, w *Worker) (res Result) {
 			var n int
 			var err error
 			if op.K == "write" {
-				n, err = fh.Write(data)
+				// the caller owns its buffer again as soon as Write returns: it is overwritten right away (io.Writer must not retain it)
+				buf := append([]byte(nil), data...)
+				n, err = fh.Write(buf)
+				for i := range buf {
+					buf[i] = 0xAA
+				}
 			} else {
 				n, err = fh.WriteString(string(data))
 			}
@@ -536,7 +546,11 @@ func handRun(prop, tier string, c Case, w *Worker) (res Result) {
 			}
 		case "writeat":
 			data := genContent(op.N, "random", op.DSeed)
-			n, err := fh.WriteAt(data, op.Off)
+			wbuf := append([]byte(nil), data...)
+			n, err := fh.WriteAt(wbuf, op.Off)
+			for i := range wbuf {
+				wbuf[i] = 0x55
+			}
 			if n < 0 || n > len(data) {
 				viol("writeat|count-range", "WriteAt returned n=%d for %d bytes", n, len(data))
 				return
